@@ -260,7 +260,8 @@ pub fn run(rep: &mut Report) {
         sweep(rep, "c20.scan_from_tow", 9 * (nsc / 4), |i, out| {
             let k = i / 9;
             let w = if k % 4 == 3 { lattice::scan_point(k, 0, 0, max_w as i128) } else { lattice::scan_point(k, 1, 0, 20_000) } as u32;
-            let n = if k % 8 == 7 { lattice::scan_point(k, 2, 0, u64::MAX as i128) } else { lattice::scan_point(k, 3, 0, WEEK - 1) } as u64;
+            // (the two choices are taken from different digits of k, so that every kind of week meets every kind of count)
+            let n = match (k / 4) % 8 { 7 => lattice::scan_point(k, 2, 0, u64::MAX as i128), 5 | 6 => lattice::scan_point(k, 5, 0, NPC), _ => lattice::scan_point(k, 3, 0, WEEK - 1) } as u64;
             j_from_tow(w, n, SCALES[(i % 9) as usize], out)
         });
         sweep(rep, "c20.scan_to_tow", 9 * (nsc / 4), |i, out| j_to_tow(SCALES[(i % 9) as usize], if (i / 9) % 2 == 0 { lattice::scan_point(i / 18, 4, 0, 100 * NPC) } else { lattice::scan_magnitude(i / 9, 5, 0, 76).abs().min(DMAX) }, out));
